@@ -256,3 +256,46 @@ fn c11_k_lunar_hour_carry() {
 pub fn mk_month_pub(y: isize, m: isize) -> LunarMonth { mk_month(y, m, 30, 0, 2400000) }
 pub fn mk_lunar_day(y: isize, m: isize, d: usize) -> LunarDay { LunarDay { month: mk_month(y, m, 30, 0, 2400000), day: d, solar_day: RefCell::new(None), sixty_cycle_day: RefCell::new(None) } }
 pub fn mk_lunar_hour(y: isize, m: isize, d: usize, h: usize, mi: usize, s: usize) -> LunarHour { LunarHour { day: mk_lunar_day(y, m, d), hour: h, minute: mi, second: s, solar_time: RefCell::new(None), sixty_cycle_hour: RefCell::new(None) } }
+
+// ---- C14 (lunar weeks): same arithmetic as the civil weeks, on the real bodies; the weekday of the first day of the lunar
+// month is an arbitrary answer of a stub, LunarDay::from_ymd / next are recording stubs.
+use crate::tyme::culture::Week;
+use crate::tyme::jd::JulianDay;
+static mut LW_W: isize = -7801;
+static mut LW_N: isize = -7802;
+static mut LW_FROM: (isize, isize, usize) = (-7803, -7804, 7805);
+fn lw_jd_get_week(_j: &JulianDay) -> Week { Week::from_index(unsafe { LW_W }) }
+fn lw_day_get_week(d: &LunarDay) -> Week { unsafe { LW_FROM = (d.get_year(), d.get_lunar_month().get_month_with_leap(), d.get_day()); } Week::from_index(unsafe { LW_W }) }
+fn lw_day_next(d: &LunarDay, n: isize) -> LunarDay { unsafe { LW_N = n; } d.clone() }
+
+#[kani::proof]
+#[kani::unwind(9)]
+#[kani::stub(alloc::fmt::format, stub_format)]
+#[kani::stub(JulianDay::get_week, lw_jd_get_week)]
+fn c14_k_lunar_week_count() {
+  let y: isize = kani::any(); let m: isize = kani::any(); let dc: usize = kani::any(); let start: usize = kani::any(); let w: isize = kani::any();
+  kani::assume(y >= 0 && y <= 9999 && m != 0 && m >= -12 && m <= 12 && dc >= 29 && dc <= 30 && start <= 6 && w >= 0 && w <= 6);
+  unsafe { LW_W = w; }
+  let c = mk_month(y, m, dc, 0, 2400000).get_week_count(start);
+  let off = spec::emod(w as i64 - start as i64, 7);
+  assert!(c as i64 == (off + dc as i64 + 6) / 7, "lunar week count == ceil((offset of the first day in its week + month length) / 7)");
+  kani::cover!(c == 6, "lunar_week_count reachable (six weeks)");
+}
+
+#[kani::proof]
+#[kani::unwind(9)]
+#[kani::stub(alloc::fmt::format, stub_format)]
+#[kani::stub(LunarDay::from_ymd, stub_day_from_ymd)]
+#[kani::stub(LunarDay::get_week, lw_day_get_week)]
+#[kani::stub(<LunarDay as Tyme>::next, lw_day_next)]
+fn c14_k_lunar_week_first_day() {
+  let y: isize = kani::any(); let m: isize = kani::any(); let start: isize = kani::any(); let w: isize = kani::any(); let i: usize = kani::any();
+  kani::assume(y >= 0 && y <= 9999 && m != 0 && m >= -12 && m <= 12 && start >= 0 && start <= 6 && w >= 0 && w <= 6 && i <= 5);
+  unsafe { LW_W = w; }
+  let wk = LunarWeek { parent: crate::tyme::AbstractTyme::new(), month: mk_month(y, m, 30, 0, 2400000), index: i, start: Week::from_index(start) };
+  let r = wk.get_first_day();
+  core::mem::forget(r);
+  assert!(unsafe { LW_N } as i64 == 7 * i as i64 - spec::emod((w - start) as i64, 7), "first day of lunar week i == first of the month + 7i - (offset of the first in its week)");
+  assert!(unsafe { REC_YMD } == (y, m, 1) && unsafe { LW_FROM } == (y, m, 1), "counted from day 1 of the same lunar month (leap flag kept)");
+  kani::cover!(m == -4 && i == 5, "lunar_week_first_day reachable (leap month)");
+}
